@@ -519,3 +519,43 @@ class _InlineTemps(ast.NodeTransformer):
 
 
 TRANSFORMS["inlined_temporaries"] = _InlineTemps
+
+
+class _SplitChains(ast.NodeTransformer):
+    """`a <= x <= b` written `a <= x and x <= b` (only when the middle operands are names, attributes, constants or subscripts of those: evaluated twice)"""
+    def visit_Compare(self, node):
+        self.generic_visit(node)
+        if len(node.ops) < 2:
+            return node
+        mids = node.comparators[:-1]
+        if not all(all(isinstance(x, (ast.Name, ast.Attribute, ast.Constant, ast.Subscript, ast.Load, ast.UnaryOp, ast.USub, ast.BinOp, ast.operator))
+                       for x in ast.walk(m)) for m in mids):
+            return node
+        parts, left = [], node.left
+        for op, right in zip(node.ops, node.comparators):
+            parts.append(ast.Compare(left=left, ops=[op], comparators=[right]))
+            left = right
+        return ast.copy_location(ast.BoolOp(op=ast.And(), values=parts), node)
+
+
+class _Ternary(ast.NodeTransformer):
+    """`if c: x = A  else: x = B` (one plain assignment of the same name on both sides) written `x = A if c else B`, and the other way round"""
+    def visit_If(self, node):
+        self.generic_visit(node)
+        if len(node.body) == 1 and len(node.orelse) == 1 and all(isinstance(s, ast.Assign) and len(s.targets) == 1 and isinstance(s.targets[0], ast.Name)
+                                                                   for s in (node.body[0], node.orelse[0])) \
+                and node.body[0].targets[0].id == node.orelse[0].targets[0].id:
+            return ast.copy_location(ast.Assign(targets=[node.body[0].targets[0]], value=ast.IfExp(test=node.test, body=node.body[0].value, orelse=node.orelse[0].value),
+                                                type_comment=None), node)
+        return node
+
+    def visit_Assign(self, node):
+        if isinstance(node.value, ast.IfExp) and len(node.targets) == 1 and isinstance(node.targets[0], ast.Name):
+            import copy
+            return ast.copy_location(ast.If(test=node.value.test, body=[ast.Assign(targets=[node.targets[0]], value=node.value.body, type_comment=None)],
+                                            orelse=[ast.Assign(targets=[copy.deepcopy(node.targets[0])], value=node.value.orelse, type_comment=None)]), node)
+        return node
+
+
+TRANSFORMS["split_chains"] = _SplitChains
+TRANSFORMS["ternaries"] = _Ternary
